@@ -142,6 +142,38 @@ def run_hist(spec):
                           {"check": "C11", "descs": small, "labels": labels})
         if len(acc.samples) < 2 and needed != refmodel.attached_steps(last):
             acc.sample({"family": fam, "edits": labels, "needed": sorted(needed), "executed": last.started})
+        # the same state, then every plain source changes and the next build is restricted to one
+        # target: only what the target (and the planning steps) require may be executed
+        if problems or len(labels) > 1:
+            return
+        files = hist.desc_files(descs[-1])
+        sources = [p for p, c in files.items() if not p.endswith("/") and c is not None
+                   and not c.startswith("#!") and p in last.fs]
+        outs = sorted(p for s, st in last.db_steps.items() if not st["detached"]
+                      for p in last.db_outputs.get(s, []))[:3]
+        for target in outs:
+            w2, ol2 = hist.run_history(descs, cfg)
+            try:
+                if len(ol2) < len(descs) or ol2[-1].rc_class != "success":
+                    continue
+                for p in sources:
+                    w2.write(p, files[p] + "changed\n")
+                obs = hist.build(w2, descs[-1], {**cfg, "targets": [target]})
+            finally:
+                w2.destroy()
+            acc.evaluations += len(ol2) + 1
+            acc.transitions += obs.nev
+            if not obs.ok():
+                continue
+            need_t = refmodel.required_steps(obs, (target,), ())
+            extra_t = sorted(set(obs.started) - need_t)
+            acc.nontrivial.add(h8([fam, labels, "target", target]))
+            if extra_t:
+                acc.violation(f"C11|hist-target|{fam}|{hist.history_label(descs)}|{target}",
+                              {"family": fam, "edits": labels, "target": target,
+                               "executed_not_required_by_the_target": extra_t,
+                               "required": sorted(need_t), "exec": describe(obs, 30)},
+                              {"check": "C11", "descs": descs, "labels": labels, "target": target})
 
     nrun, _nstates, _trunc = hist.bfs(spec["start"], spec["depth"], hist.knob_edits, visit, cfg,
                                       first=spec["first"])
